@@ -1,0 +1,18 @@
+//go:build verif
+
+package encoders
+
+// Delegation contracts (C20/C01). Comment-only; checked by /verif/bin/plushvc.
+
+// raw(s) is byte-identical to s (and typed template.HTML, so the output sink emits it verbatim).
+//@ func Raw
+//@ licensed-html-conversion
+//@ ensures same: result == s
+//@ assigns nothing
+
+// toJSON(v) is exactly json.Marshal's output, typed template.HTML.
+//@ func ToJSON
+//@ ensures ok: err == nil ==> result == strb(jsonOf(v))
+//@ ensures fail: err != nil ==> result == ""
+//@ errprop
+//@ assigns nothing
